@@ -1,5 +1,7 @@
 import Ruint.Model.DivUint
 import Ruint.Lemmas.Div.Uint
+import Ruint.Lemmas.Div.GenUintDiv
+import Ruint.Props.C14
 /-!
 # C03 — division and remainder satisfy the Euclidean contract at the `Uint` surface
 
@@ -235,5 +237,53 @@ example : checkedNextMultipleOf 64 [2 ^ 64 - 1] [2] = some none := by decide +ke
 example : divCeil 128 [1, 1] [2, 0] = some [2 ^ 63 + 1, 0] := by decide +kernel
 example : divRem 0 [] [] = none := by decide +kernel
 example : checkedDiv 0 [] [] = some none := by decide +kernel
+
+/-! ### the `Uint` division surface regenerated from `src/div.rs`, `src/cmp.rs`, `src/special.rs` (`Gen/WordsUintDiv.lean`)
+
+`div_rem`, `wrapping_div`, `wrapping_rem`, `checked_div`, `checked_rem`, `div_ceil`, `checked_next_multiple_of`,
+`next_multiple_of` and `is_zero` as the source defines them — translated on every run, over the generated `algorithms::div`
+(`C14.gen_div_eq`), `wrapping_add`, `checked_add`, `checked_mul` — equal the models above on canonical operands, panic
+outcome included. The driver executes them. -/
+
+section gen
+variable (bits : ℕ) (hN : nlimbs bits < 2 ^ 62) (a b : List ℕ) (ha : Canon bits a) (hb : Canon bits b) (f : ℕ)
+include hN ha hb
+
+theorem gen_div_rem_eq (hf : nlimbs bits + 1 < f) : Ruint.Gen.uint_div_rem f bits (nlimbs bits) a b = divRem bits a b :=
+  Ruint.Div.GenUintDiv.div_rem_eq Ruint.C14.gen_div_eq bits hN a b ha hb f hf
+
+theorem gen_wrapping_div_eq (hf : nlimbs bits + 1 < f) :
+    Ruint.Gen.uint_wrapping_div f bits (nlimbs bits) a b = wrappingDiv bits a b :=
+  Ruint.Div.GenUintDiv.wrapping_div_eq Ruint.C14.gen_div_eq bits hN a b ha hb f hf
+
+theorem gen_wrapping_rem_eq (hf : nlimbs bits + 1 < f) :
+    Ruint.Gen.uint_wrapping_rem f bits (nlimbs bits) a b = wrappingRem bits a b :=
+  Ruint.Div.GenUintDiv.wrapping_rem_eq Ruint.C14.gen_div_eq bits hN a b ha hb f hf
+
+theorem gen_checked_div_eq (hf : nlimbs bits + 1 < f) :
+    Ruint.Gen.uint_checked_div f bits (nlimbs bits) a b = checkedDiv bits a b :=
+  Ruint.Div.GenUintDiv.checked_div_eq Ruint.C14.gen_div_eq bits hN a b ha hb f hf
+
+theorem gen_checked_rem_eq (hf : nlimbs bits + 1 < f) :
+    Ruint.Gen.uint_checked_rem f bits (nlimbs bits) a b = checkedRem bits a b :=
+  Ruint.Div.GenUintDiv.checked_rem_eq Ruint.C14.gen_div_eq bits hN a b ha hb f hf
+
+theorem gen_div_ceil_eq (hf : nlimbs bits + 1 < f) :
+    Ruint.Gen.uint_div_ceil f bits (nlimbs bits) a b = divCeil bits a b :=
+  Ruint.Div.GenUintDiv.div_ceil_eq Ruint.C14.gen_div_eq bits hN a b ha hb f hf
+
+theorem gen_checked_next_multiple_of_eq (hf : 3 * nlimbs bits + 1 < f) :
+    Ruint.Gen.uint_checked_next_multiple_of f bits (nlimbs bits) a b = checkedNextMultipleOf bits a b :=
+  Ruint.Div.GenUintDiv.checked_next_multiple_of_eq Ruint.C14.gen_div_eq bits hN a b ha hb f hf
+
+theorem gen_next_multiple_of_eq (hf : 3 * nlimbs bits + 1 < f) :
+    Ruint.Gen.uint_next_multiple_of f bits (nlimbs bits) a b = nextMultipleOf bits a b :=
+  Ruint.Div.GenUintDiv.next_multiple_of_eq Ruint.C14.gen_div_eq bits hN a b ha hb f hf
+
+end gen
+
+theorem gen_is_zero_eq (bits : ℕ) (a : List ℕ) (ha : a.length = nlimbs bits) :
+    Ruint.Gen.uint_is_zero bits (nlimbs bits) a = isZero a :=
+  Ruint.Div.GenUintDiv.is_zero_eq bits a ha
 
 end Ruint.C03
